@@ -5,7 +5,11 @@ static MPI_Info make_info(const char *hints)
     MPI_Info info = MPI_INFO_NULL; char *h, *p, *q;
     if (!hints || !*hints) return MPI_INFO_NULL;
     PMPI_Info_create(&info);
-    h = strdup(hints);
+    /* "@W@" in a hint value stands for "<workdir>/c<case>_" (directories the case creates itself) */
+    { char pfx[700]; const char *at; size_t n; snprintf(pfx, sizeof pfx, "%s/c%d_", g_workdir, g_case);
+      h = malloc(strlen(hints) + 8 * strlen(pfx) + 8); h[0] = 0;
+      while ((at = strstr(hints, "@W@")) != NULL) { n = strlen(h); memcpy(h + n, hints, (size_t)(at - hints)); h[n + (at - hints)] = 0; strcat(h, pfx); hints = at + 3; }
+      strcat(h, hints); }
     for (p = strtok_r(h, ";", &q); p; p = strtok_r(NULL, ";", &q)) {
         char *e = strchr(p, '=');
         if (e) { *e = 0; PMPI_Info_set(info, p, e + 1); }
@@ -204,6 +208,24 @@ static void op_mkfile(void)
     else if (arg("size")) { if (ftruncate(fd, (off_t)argi("size", 0)) != 0) { OUT(" rc=-3"); close(fd); return; } }
     close(fd);
     OUT(" rc=0");
+}
+
+static void op_mkdir(void)
+{
+    char path[700]; path_of(path, sizeof path, "path");
+    OUT(" rc=%d", mkdir(path, 0755) == 0 || errno == EEXIST ? 0 : -1);
+}
+
+/* lsdir path=bb : every entry of a directory created by the case */
+static void op_lsdir(void)
+{
+    char path[700]; DIR *d; struct dirent *e; int first = 1;
+    path_of(path, sizeof path, "path");
+    d = opendir(path);
+    if (!d) { OUT(" rc=-1 errno=%d", errno); return; }
+    OUT(" rc=0 names=");
+    while ((e = readdir(d))) { if (e->d_name[0] == '.') continue; OUT("%s%s", first ? "" : ",", e->d_name); first = 0; }
+    closedir(d);
 }
 
 static void op_ls(void)
